@@ -52,19 +52,23 @@ Definition utf8_width (c : N) : nat :=
   if (c <? 128)%N then 1%nat else if (c <? 2048)%N then 2%nat else if (c <? 65536)%N then 3%nat else 4%nat.
 Definition utf8_len (s : str) : nat := fold_right (fun c n => (utf8_width c + n)%nat) 0%nat s.
 
-(* indexFunc AS THE CODE IS: float64(strings.Index(s, substr)) is a BYTE offset
-   (UTF-8 is self-synchronising, so the first byte-level match is the first
-   code-point-level match; its offset is the encoded length of the prefix) *)
-Definition index_bytes (s sub : str) : Z :=
-  match index_cp s sub with
-  | None => -1
-  | Some i => Z.of_nat (utf8_len (firstn i s))
-  end.
-(* corrected: offset in code points, like len / s[i] / slices *)
-Definition index_fixed (s sub : str) : Z :=
+(* indexFunc (since 79c1bbb):
+     idx := strings.Index(s, substr); if idx > 0 { idx = utf8.RuneCountInString(s[:idx]) }
+   strings.Index finds the first occurrence (UTF-8 is self-synchronising, so the
+   first byte-level match is the first code-point-level match); the byte offset
+   is then converted to the number of characters before it — which, at the level
+   of code points, is the position of the first occurrence itself. *)
+Definition index_chars (s sub : str) : Z :=
   match index_cp s sub with
   | None => -1
   | Some i => Z.of_nat i
+  end.
+(* before 79c1bbb: float64(strings.Index(s, substr)), a BYTE offset (the encoded
+   length of the prefix). Kept for the regression lemma only. *)
+Definition index_bytes_before_fix (s sub : str) : Z :=
+  match index_cp s sub with
+  | None => -1
+  | Some i => Z.of_nat (utf8_len (firstn i s))
   end.
 
 (* strings.Join *)
@@ -319,29 +323,35 @@ Definition quote_with (ascii_only : bool) (s : str) : str :=
   [34%N] ++ flat_map (esc_char ascii_only) s ++ [34%N].
 Definition quote (s : str) : str := quote_with false s.
 
-(* ---------- lexer.IsIdent AS THE CODE IS ----------
-     for i, r := range s { if !isLetter(r) && (i > 0 && !isDigit(r)) { return false } }
-   the first character (i == 0) is never rejected *)
+(* ---------- lexer.IsIdent (since 09cb4c8) ----------
+     if s == "" { return false }
+     for i, r := range s { if !isLetter(r) && (i == 0 || !isDigit(r)) { return false } }
+     return true *)
 Definition is_letter_ (c : N) : bool := o_is_letter o c || N.eqb c 95.
 Definition is_digit_ (c : N) : bool := (48 <=? c)%N && (c <=? 57)%N.
 Fixpoint is_ident_loop (first : bool) (s : str) : bool :=
   match s with
   | [] => true
-  | c :: t => if negb (is_letter_ c) && (negb first && negb (is_digit_ c)) then false
+  | c :: t => if negb (is_letter_ c) && (first || negb (is_digit_ c)) then false
               else is_ident_loop false t
   end.
 Definition is_ident (s : str) : bool :=
   match s with [] => false | _ => is_ident_loop true s end.
-(* corrected: letter or underscore first, then letters, digits, underscores *)
-Definition is_ident_fixed (s : str) : bool :=
+
+(* before 09cb4c8: `!isLetter(r) && (i > 0 && !isDigit(r))` — the first character
+   was never rejected. Kept for the regression lemma only. *)
+Fixpoint is_ident_loop_before_fix (first : bool) (s : str) : bool :=
   match s with
-  | [] => false
-  | c :: t => is_letter_ c && forallb (fun c => is_letter_ c || is_digit_ c) t
+  | [] => true
+  | c :: t => if negb (is_letter_ c) && (negb first && negb (is_digit_ c)) then false
+              else is_ident_loop_before_fix false t
   end.
+Definition is_ident_before_fix (s : str) : bool :=
+  match s with [] => false | _ => is_ident_loop_before_fix true s end.
 
 (* value.go: keyRepr *)
 Definition key_repr (k : str) : str := if is_ident k then k else quote k.
-Definition key_repr_fixed (k : str) : str := if is_ident_fixed k then k else quote k.
+Definition key_repr_before_fix (k : str) : str := if is_ident_before_fix k then k else quote k.
 
 (* ---------- value.String() ---------- *)
 Fixpoint vstring (v : val) : str :=
@@ -370,7 +380,6 @@ Fixpoint vrepr_with (v : val) : str :=
   end.
 End Repr.
 Definition vrepr : val -> str := vrepr_with key_repr.
-Definition vrepr_fixed : val -> str := vrepr_with key_repr_fixed.
 
 (* builtin.go: join(args, sep) used by print / sprint / joinFunc *)
 Definition join_vals (l : list val) (sep : str) : str := join (map vstring l) sep.
@@ -559,8 +568,17 @@ Definition parse_bool (s : str) : option bool :=
   else if mem_str s false_literals then Some false
   else None.
 
-(* str2numFunc *)
+(* str2numFunc (since e40074a): on any error err is set and n = 0 *)
 Definition str2num (s : str) (st : errst) : float * errst :=
+  let st1 := reset_global_err st in
+  match o_parse_float o s with
+  | PFOk f => (f, st1)
+  | PFSyntax => (zero, set_global_err (s_ "str2num: cannot parse " ++ quote s) st1)
+  | PFRange _ => (zero, set_global_err (s_ "str2num: cannot parse " ++ quote s) st1)
+  end.
+(* before e40074a: ParseFloat's value (±Inf for a range error) was returned
+   unchanged. Kept for the regression lemma only. *)
+Definition str2num_before_fix (s : str) (st : errst) : float * errst :=
   let st1 := reset_global_err st in
   match o_parse_float o s with
   | PFOk f => (f, st1)
@@ -593,16 +611,18 @@ Inductive outcome :=
 (* effects on the platform *)
 Inductive effect := EPrint (s : str) | ECls | ESleep (ns : Z) | ERead.
 
-(* randFunc AS THE CODE IS:  if upper < 1 || upper > 2147483647 -> panic;
-   Int31n(int32(upper)) — which panics in the host for n <= 0 (NaN passes
-   both comparisons) *)
+(* randFunc (since 30a294b):
+     if !(upper >= 1 && upper <= 2147483647) -> panic "bad arguments"   (also NaN)
+     Int31n(int32(upper)) — Int31n panics in the host for n <= 0: OHostCrash,
+   which BuiltinsProofs.rand_no_host_crash shows unreachable. *)
 Definition rand_model (upper : float) : outcome :=
-  if PrimFloat.ltb upper 1 || PrimFloat.ltb 2147483647 upper then OPanic BadArguments
+  if negb (PrimFloat.leb 1 upper && PrimFloat.leb upper 2147483647) then OPanic BadArguments
   else let n := go_int32 upper in
        if n <=? 0 then OHostCrash else ORet (VNum (float_of_Z (o_rand o n))).
-(* corrected: NaN rejected like every other value outside [1, 2^31-1] *)
-Definition rand_fixed (upper : float) : outcome :=
-  if negb (PrimFloat.leb 1 upper && PrimFloat.leb upper 2147483647) then OPanic BadArguments
+(* before 30a294b: `upper < 1 || upper > 2147483647`, false for NaN, so
+   Int31n(int32(NaN)) crashed the host. Kept for the regression lemma only. *)
+Definition rand_model_before_fix (upper : float) : outcome :=
+  if PrimFloat.ltb upper 1 || PrimFloat.ltb 2147483647 upper then OPanic BadArguments
   else let n := go_int32 upper in
        if n <=? 0 then OHostCrash else ORet (VNum (float_of_Z (o_rand o n))).
 
@@ -780,7 +800,7 @@ Definition call_builtin (name : str) (args0 : list val) (st : bstate) : outcome 
     else if name_is name "split" then pure (str2_ args (fun a b => VArr TStr (map VStr (split a b))))
     else if name_is name "upper" then pure (match args with [VStr a] => ORet (VStr (upper a)) | _ => OHostCrash end)
     else if name_is name "lower" then pure (match args with [VStr a] => ORet (VStr (lower a)) | _ => OHostCrash end)
-    else if name_is name "index" then pure (str2_ args (fun a b => VNum (float_of_Z (index_bytes a b))))
+    else if name_is name "index" then pure (str2_ args (fun a b => VNum (float_of_Z (index_chars a b))))
     else if name_is name "startswith" then pure (str2_ args (fun a b => VBool (startswith a b)))
     else if name_is name "endswith" then pure (str2_ args (fun a b => VBool (endswith a b)))
     else if name_is name "trim" then pure (str2_ args (fun a b => VStr (trim a b)))
